@@ -283,10 +283,10 @@ def cases(tier, seed):
     for n, s in rnd.sample(e2, min(k2, len(e2))):
         out.append({'name': n, 'family': 'layout', 'params': {'shape': s},
                     'budget': 40.0 if tier == 'quick' else 90.0})
-    if tier == 'thorough':
-        for n, s in gen_docs.random_shapes(150, seed + 4, True):
-            out.append({'name': n, 'family': 'layout', 'params': {'shape': s},
-                        'budget': 120.0})
+    for n, s in gen_docs.random_shapes(60 if tier == 'quick' else 400, seed + 4, True,
+                                       max_nodes=7 if tier == 'quick' else 9):
+        out.append({'name': n, 'family': 'layout', 'params': {'shape': s},
+                    'budget': 40.0 if tier == 'quick' else 120.0})
     # renderer
     a = gen_docs.X
     rshapes = [
